@@ -840,6 +840,14 @@ class Interp(_Base):
                 self.site_counter += 1
                 abs_ = {k: v for k, v in kwargs.items() if isinstance(v, IntV)}
                 rd = RDV(abs_, {})
+                def _within(k, lo_, hi_):
+                    v_ = abs_.get(k)
+                    return v_ is None or (isinstance(v_, IntV) and v_.lo >= lo_ and v_.hi <= hi_)
+                day_safe = "day" in abs_ and _within("day", 1, 28)
+                if day_safe and _within("month", 1, 12) and _within("year", 1, 9999):
+                    # a day every month has, month and year within their ranges: replace cannot raise
+                    return R(DTV(("dtexpr", b.sym, rd.sym, "replace"), base=b.base,
+                                 deltas=b.deltas + (rd,)))
                 if "day" in abs_ or "month" in abs_ or "year" in abs_:
                     # datetime.replace raises on an invalid calendar date
                     s2 = st.fork()
@@ -1108,6 +1116,9 @@ class Interp(_Base):
             return [(st, dt)]
         if status == "CONST-BAD":
             return [(st, self.raised("calendar", "ValueError", node, "constant date does not exist"))]
+        if status == "UNKNOWN":
+            self.note_cal_unknown(node, "calendar validity of the date handed to datetime() was not decided")
+            return [(st, dt)]
         s2 = st.fork()
         self.tick()
         st.checked.add((f["year"].sym, f["month"].sym, f["day"].sym))
@@ -1162,6 +1173,8 @@ class Interp(_Base):
                 if o.sym == src:
                     if o.cal in ("REAL", "CHECKED", "NA"):
                         return "REAL"
+                    if o.cal == "UNKNOWN":
+                        return "UNKNOWN"
                     return "UNCHECKED"
         return "UNCHECKED"
 
